@@ -278,7 +278,7 @@ def copy_metadata(old, data, do_coords=True):
         new.attrs = old.attrs
         new.name = old.name
 
-        if hasattr(old, 'flat') and hasattr(new, 'flat'):
+        if 'flat' in old.dims and 'flat' in new.dims:
             # use reindex_like() to preserve order of MultiIndex and derived
             # coordinates, or arrays may be misaligned
             new = new.reindex_like(old)
@@ -415,14 +415,15 @@ def to_vector(c):
 
 
 def flat(a):
-    if hasattr(a, 'flat') or hasattr(a, 'point'):
+    # (not hasattr: that would also find metadata of these names in attrs)
+    if 'flat' in a.dims or 'point' in a.dims:
         return a
     else:
         return a.stack(flat=('x', 'y', 'z'))
 
 
 def from_flat(a):
-    if hasattr(a, 'flat'):
+    if 'flat' in a.dims:
         return a.unstack('flat')
     return a
 
